@@ -190,6 +190,8 @@ impl Snapshot {
 			return Ok(Some((item.1, item.0.seq_num()))); // Key found, return the value
 		}
 		drop(memtable_lock); // Release the lock on the active memtable
+		#[cfg(feature = "verif")]
+		crate::verif::yield_sync("get.post_active");
 
 		// Read lock on the immutable memtables
 		let memtable_lock = self.core.immutable_memtables.read()?;
@@ -205,6 +207,8 @@ impl Snapshot {
 			}
 		}
 		drop(memtable_lock); // Release the lock on the immutable memtables
+		#[cfg(feature = "verif")]
+		crate::verif::yield_sync("get.post_immutables");
 
 		// Read lock on the level manifest
 		let level_manifest = self.core.level_manifest.read()?;
